@@ -262,6 +262,9 @@ def run_trace_check(ops_lines, module='TraceUrl', config='default', tag='run', n
     shutil.rmtree(work, ignore_errors=True)
     os.makedirs(work)
     exe = build(config, main)
+    # a TLC start costs ~8 s of CPU (JVM + parsing the specification): do not split small workloads 16 ways
+    per_shard = {'TracePattern': 60, 'TraceIdna': 150, 'TraceSched': 50}.get(module, 400)
+    nshards = max(1, min(nshards, len(ops_lines) // per_shard))
     shards = split_ops(ops_lines, nshards)
 
     def one(i):
